@@ -95,6 +95,32 @@ theorem kk_cDec (i : Nat) : KeepsK (cDec i) := kk_of_same (by
   · exact ⟨q, hq, rfl⟩
   · subst hq; exact ⟨q0, mem_of_getElem? hq0, rfl⟩)
 
+theorem kk_cFinEarly (i : Nat) : KeepsK (cFinEarly i) := kk_of_same (by
+  intro k k' h
+  unfold cFinEarly at h
+  split at h <;> try contradiction
+  rename_i q0 hq0
+  split at h <;> try contradiction
+  simp only [Option.some.injEq] at h; subst h
+  refine ⟨rfl, rfl, ?_⟩
+  intro q hq
+  rcases List.mem_or_eq_of_mem_set hq with hq | hq
+  · exact ⟨q, hq, rfl⟩
+  · subst hq; exact ⟨q0, mem_of_getElem? hq0, rfl⟩)
+
+theorem kk_cLateWrite (i : Nat) : KeepsK (cLateWrite i) := kk_of_same (by
+  intro k k' h
+  unfold cLateWrite at h
+  split at h <;> try contradiction
+  rename_i q0 hq0
+  split at h <;> try contradiction
+  simp only [Option.some.injEq] at h; subst h
+  refine ⟨rfl, rfl, ?_⟩
+  intro q hq
+  rcases List.mem_or_eq_of_mem_set hq with hq | hq
+  · exact ⟨q, hq, rfl⟩
+  · subst hq; exact ⟨q0, mem_of_getElem? hq0, rfl⟩)
+
 theorem kk_cAccept : KeepsK cAccept := kk_of_open (by
   intro k k' h; unfold cAccept at h; split at h <;> try contradiction
   rename_i hpc
@@ -243,7 +269,17 @@ theorem kick_step {cfg : Cfg} (hci : cfg.ci = .kickOnly) {s s' : State} (a : Act
     split at h
     · exact kick_updConn (kk_cStartP i) hn h
     · exact kick_updConn (kk_cStart i) hn h
-  | fin c i => exact kick_updConn (kk_cFin i) hn h
+  | fin c i =>
+    simp only [step] at h
+    split at h
+    · contradiction
+    · exact kick_updConn (kk_cFin i) hn h
+  | finEarly c i =>
+    simp only [step] at h
+    split at h
+    · exact kick_updConn (kk_cFinEarly i) hn h
+    · contradiction
+  | lateWrite c i => exact kick_updConn (kk_cLateWrite i) hn h
   | write c i => exact kick_updConn (kk_cWrite i) hn h
   | skip c i => exact kick_updConn (kk_cSkip _ i) hn h
   | dec c i => exact kick_updConn (kk_cDec i) hn h
